@@ -35,6 +35,10 @@ func gen(s string) enc.Component { return enc.NewStringComponent(enc.TypeGeneric
 type generator struct {
 	r     *rand.Rand
 	stats map[string]int
+	// what the current history has asked for so far (so that removals mostly hit something that exists)
+	routes []*mgmt.ControlArgs // rib/register arguments
+	hops   []*mgmt.ControlArgs // fib/add-nexthop arguments
+	strats []enc.Name          // strategy-choice/set prefixes
 }
 
 func (g *generator) pick(xs ...string) string { return xs[g.r.Intn(len(xs))] }
@@ -101,7 +105,7 @@ func (g *generator) faceID(nfaces int) uint64 {
 
 // ---- arrival prefix, module and verb components ----
 func (g *generator) top() []enc.Component {
-	switch g.r.Intn(40) {
+	switch g.r.Intn(64) {
 	case 0, 1, 2, 3, 4, 5:
 		return []enc.Component{gen("localhop"), gen("nfd")}
 	case 6:
@@ -148,7 +152,19 @@ var moduleVerbs = map[string][]string{
 	"faces":           {"create", "update", "destroy", "list", "query"},
 	"status":          {"general"},
 }
-var moduleNames = []string{"rib", "rib", "rib", "fib", "fib", "strategy-choice", "strategy-choice", "cs", "faces", "faces", "status"}
+var moduleNames = []string{"rib", "rib", "rib", "rib", "fib", "fib", "fib", "strategy-choice", "strategy-choice", "strategy-choice", "cs", "faces", "faces", "faces", "status"}
+
+// verbs that only read are drawn less often than verbs that change something
+func (g *generator) verb(module string) string {
+	verbs := moduleVerbs[module]
+	for {
+		v := verbs[g.r.Intn(len(verbs))]
+		reads := v == "list" || v == "info" || v == "general" || v == "query" || v == "erase" || v == "announce"
+		if !reads || module == "status" || g.chance(0.35) {
+			return v
+		}
+	}
+}
 
 // ---- ControlParameters component ----
 func (g *generator) paramsComp(args *mgmt.ControlArgs) (enc.Component, string) {
@@ -257,6 +273,18 @@ func (g *generator) args(module, verb string, nfaces int) (*mgmt.ControlArgs, st
 			a.ExpirationPeriod = utils.IdPtr([]uint64{0, 1, 1000, 3600000, 9223372036854, 9223372036855, 1 << 62, 1<<64 - 1}[g.r.Intn(8)])
 		}
 	case "rib/unregister":
+		if len(g.routes) > 0 && g.chance(0.65) {
+			// withdraw a route registered earlier in this history (same prefix, face, origin), sometimes off by one field
+			r := g.routes[g.r.Intn(len(g.routes))]
+			a.Name, a.FaceId, a.Origin = r.Name, r.FaceId, r.Origin
+			switch g.r.Intn(8) {
+			case 0:
+				a.Origin = g.optU64(1)
+			case 1:
+				a.FaceId = utils.IdPtr(g.faceID(nfaces))
+			}
+			break
+		}
 		withName(0.93)
 		withFace(0.6)
 		a.Origin = g.optU64(0.3)
@@ -265,6 +293,11 @@ func (g *generator) args(module, verb string, nfaces int) (*mgmt.ControlArgs, st
 		withFace(0.6)
 		a.Cost = g.optU64(0.5)
 	case "fib/remove-nexthop":
+		if len(g.hops) > 0 && g.chance(0.65) {
+			h := g.hops[g.r.Intn(len(g.hops))]
+			a.Name, a.FaceId = h.Name, h.FaceId
+			break
+		}
 		withName(0.93)
 		withFace(0.6)
 	case "strategy-choice/set":
@@ -275,6 +308,10 @@ func (g *generator) args(module, verb string, nfaces int) (*mgmt.ControlArgs, st
 			label = "no-strategy"
 		}
 	case "strategy-choice/unset":
+		if len(g.strats) > 0 && g.chance(0.6) {
+			a.Name = g.strats[g.r.Intn(len(g.strats))]
+			break
+		}
 		withName(0.93)
 	case "cs/config":
 		a.Capacity = g.optU64(0.7)
@@ -320,6 +357,16 @@ func (g *generator) args(module, verb string, nfaces int) (*mgmt.ControlArgs, st
 			a.Mtu = utils.IdPtr(mtuPool[g.r.Intn(len(mtuPool))])
 		}
 	}
+	switch module + "/" + verb {
+	case "rib/register":
+		g.routes = append(g.routes, a)
+	case "fib/add-nexthop":
+		g.hops = append(g.hops, a)
+	case "strategy-choice/set":
+		if a.Name != nil {
+			g.strats = append(g.strats, a.Name)
+		}
+	}
 	// occasionally: every field, or a field that the verb does not use
 	if g.chance(0.04) {
 		a.Count = utils.IdPtr(g.u64())
@@ -330,8 +377,7 @@ func (g *generator) args(module, verb string, nfaces int) (*mgmt.ControlArgs, st
 
 func (g *generator) command(nfaces int) opCmd {
 	module := moduleNames[g.r.Intn(len(moduleNames))]
-	verbs := moduleVerbs[module]
-	verb := verbs[g.r.Intn(len(verbs))]
+	verb := g.verb(module)
 	if g.chance(0.03) {
 		verb = "frobnicate"
 	}
@@ -440,6 +486,7 @@ func (g *generator) inFace(nfaces int) uint64 {
 }
 
 func (g *generator) genCase() *caseSpec {
+	g.routes, g.hops, g.strats = nil, nil, nil
 	cs := &caseSpec{localhop: g.chance(0.4)}
 	cs.faces = append([]faceSpec{}, facePool[g.r.Intn(len(facePool))]...)
 	n := 6 + g.r.Intn(20)
